@@ -31,7 +31,7 @@ def run(ctx, rep):
     rep.extra['interpreter_steps'] = pa.steps
     rep.extra['exhaustive'] = True
     if pa.incomplete:
-        rep.ob('engine', 'incomplete', False, f'abstraction bound reached: {pa.incomplete[:3]}')
+        rep.ob('engine', 'incomplete', None, f'abstraction bound reached: {pa.incomplete[:3]}')
     bypol = {}
     for w in pa.worlds:
         bypol.setdefault(w.policy, []).append(w)
